@@ -51,13 +51,19 @@ fn build_sut() -> PathBuf {
     // that registered checks always rebuild /repo's working tree.
     if let Ok(b) = std::env::var("PSIM_SUT_BIN") {
         if repo_dir() != Path::new("/repo") {
-            let tag = format!("sut-{:x}bin", rng::hash_str(&b));
+            let tag = match std::env::var("PSIM_SUT_TAG") {
+                Ok(t) => format!("sut-{}bin", t),
+                Err(_) => format!("sut-{:x}bin", rng::hash_str(&b)),
+            };
             return install_sut(Path::new(&b), &target_dir().join(tag));
         }
     }
     let repo = repo_dir();
     let tag = if repo == Path::new("/repo") {
         "sut".to_string()
+    } else if let Ok(t) = std::env::var("PSIM_SUT_TAG") {
+        // scratch trees: the caller names (and later removes) the build directory
+        format!("sut-{}", t)
     } else {
         format!("sut-{:x}", rng::hash_str(repo.to_str().unwrap()))
     };
@@ -703,6 +709,11 @@ fn shrink_candidates(c: &Case) -> Vec<Case> {
                 for a in 1..cmd.argv.len() {
                     if cmd.argv.len() <= 2 {
                         break;
+                    }
+                    // options change what the oracle may assume (--no-pretty,
+                    // -k, -jN): only target names are dropped
+                    if cmd.argv[a].starts_with('-') {
+                        continue;
                     }
                     let mut n = c.clone();
                     if let Step::Cmds(nv) = &mut n.scenario.history[i] {
